@@ -1,15 +1,17 @@
 (* FormatBridge.v — the FORMAT.md decoder of Format.v against the hand-written writer model
    (Writer.v, EncLayer.enc_format with the AES-GCM instance of InstGcm.v), and concrete
    instances used as non-vacuity examples by props/C06.v. *)
+From MLA Require Import Limit.
 From Coq Require Import String.
 From MLA Require Import Base Stream Blocks Writer EncLayer InstGcm Format FormatProofs.
 From MLA.Concrete Require Aes Sha256 X25519 HexS.
 From MLAGen Require Src.
 Open Scope N_scope.
 
-(* what the model writer hands to the top layer, for any sequence of calls *)
+(* what the model writer hands to the top layer, for any sequence of calls (production
+   constants of gen/Src.v: block tags and the bincode limit) *)
 Definition model_writer_out (FNMAX : N) (ops : list (wop)) : bytes :=
-  w_out (fst (wrun FNMAX Src.BT_FileStart Src.BT_FileContent Src.BT_EndOfArchiveData Src.BT_EndOfFile
+  w_out (fst (wrun (LIM := Src.BINCODE_MAX_DESERIALIZE_prod) FNMAX Src.BT_FileStart Src.BT_FileContent Src.BT_EndOfArchiveData Src.BT_EndOfFile
                    Sha256.sha256 (fun f => f) w_init ops)).
 
 (* layer-less archives of the model writer: header of lib.rs (magic, version, layers 0, None) *)
